@@ -72,6 +72,18 @@ def instr_cases(rng, n):
                         "interp poke a0 %x" % rng.choice([0xFFFFFF8000000001, 0x7FFFFFFFFF, 0xFFFFFFFFFFFFFFFF, 1, rng.bits(40)]),
                         "interp poke a1 %x" % rng.choice([0xFFFFFFD1FC9138C6, 0x12345678, 0xFFFFFF8000000000]),
                         "interp step %x %x" % (w, rng.biased(16))])
+    # the loop machinery indexes the four-entry frame stack with bcn: every loop instruction (bkrep forms, frame store /
+    # restore, break, rep) from every nesting level 0..4 - at level 4 a further frame has no slot - with the saved frame
+    # words in memory drawn both valid and invalid, and the instruction at / next to the innermost frame end
+    loops = [w for w in ws if keys[w][0].startswith(("bkrep", "break", "rep_"))]
+    for w in loops:
+        if keys[w][0].startswith("bkrep_Imm8") and (w & 0xFF) not in (0, 1, 0x7F, 0xFF):
+            continue
+        for bcn in range(5):
+            for rep_ in range(1 if bcn < 3 else 3):
+                pk = ["interp poke lp %x" % (1 if bcn else 0), "interp poke bcn %x" % bcn,
+                      "interp poke sp %x" % rng.choice([0x1000, 0x7000, rng.bits(16)])]
+                out.append(["interp gen %x" % rng.bits(40)] + pk + ["interp step %x %x" % (w, rng.biased(16))])
     for _ in range(n):
         w = rng.choice(ws)
         pk = []
@@ -336,7 +348,8 @@ def explore(rng, tier, replay=None):
                             "the harness answers `oob` instead of performing one outside the 0x80000 bytes, and guards the unchecked "
                             "table indices; inputs: one instruction of every kind from register states at the edges of the hardware "
                             "widths (program page, pc at the top of program space, every pcmhi, stack pointer / address registers at "
-                            "the ends of data space, loop frames), random DMA configurations over all spaces with 32-bit addresses and "
+                            "the ends of data space, loop frames; every loop instruction - bkrep forms, bkrepsto / bkreprst, break, rep - from every "
+                            "nesting level 0..4), random DMA configurations over all spaces with 32-bit addresses and "
                             "AHBM settings then a start, CHANNEL written with out-of-range values followed by window accesses, arbitrary "
                             "values to every MMIO offset through both paths with data accesses around the window, short runs of "
                             "arbitrary program words at the top of the program space; MIU paging (page mode, x/y/z pages incl. values >= 2, "
